@@ -1,6 +1,7 @@
 package util
 
 import (
+	"sort"
 	"strings"
 
 	"github.com/zmap/zcrypto/x509"
@@ -47,5 +48,7 @@ func GetKeyUsageStrings(keyUsages x509.KeyUsage) []string {
 			keyUsageStrings = append(keyUsageStrings, strings.TrimPrefix(name, "KeyUsage"))
 		}
 	}
+	// KeyUsageToString is a map: sort so that callers get the same list every time
+	sort.Strings(keyUsageStrings)
 	return keyUsageStrings
 }
